@@ -32,12 +32,12 @@ theorem split_flat_chunks (S : List Int) (parts n : Nat) (hp : 0 < parts) (hn : 
     rw [hl]; omega
   unfold Arr.split
   simp only [hne, Bool.false_eq_true, if_false]
-  rw [if_neg (by omega)]
+  rw [if_neg (by simp [Arr.ndim, Arr.flat]), if_neg (by omega)]
   simp only [Arr.flat, Option.getD_none, Res.idx, List.getElem?_cons_zero, Res.bind_ok]
   rw [if_pos (by rw [hl]; exact Nat.mul_mod_right parts n)]
   have h0 : (⟨S, [S.length]⟩ : A).arraySplit 0 parts none = (⟨S, [S.length]⟩ : A).arraySplit 0 parts (some 0) := by
     unfold Arr.arraySplit
-    simp [Arr.ndim]
+    simp only [Option.getD_none, Option.getD_some]
   rw [h0, C11.arraySplit_flat1d ⟨S, [S.length]⟩ 0 parts S.length hwf rfl (by omega) hp]
   congr 1
   apply List.map_congr_left
